@@ -336,7 +336,14 @@ func init() {
 						if st {
 							s = corev1.ConditionTrue
 						}
-						t.Status.Conditions = append(t.Status.Conditions, trialsv1beta1.TrialCondition{Type: trialsv1beta1.TrialConditionType(ct), Status: s})
+						tc := trialsv1beta1.TrialCondition{Type: trialsv1beta1.TrialConditionType(ct), Status: s}
+						if rng.Intn(2) == 0 {
+							// transition times need not grow along the list (conditions are stamped by different writers and clocks);
+							// "the last condition" is the last element whatever the stamps say
+							tc.LastTransitionTime = metav1.NewTime(time.Date(2024, 1, 1, rng.Intn(24), rng.Intn(60), 0, 0, time.UTC))
+							tc.LastUpdateTime = tc.LastTransitionTime
+						}
+						t.Status.Conditions = append(t.Status.Conditions, tc)
 						conds = append(conds, ct+" "+b01(st))
 					}
 					start, compl := "", ""
